@@ -2,13 +2,13 @@
 * Unless explicitly stated otherwise all files in this repository are licensed under the Apache-2.0 License.
 * This product includes software developed at Datadog (https://www.datadoghq.com/). Copyright 2022 Datadog, Inc.
 **/
-use swc_common::Spanned;
+use swc_common::{Span, Spanned};
 use swc_ecma_ast::*;
 use swc_ecma_visit::VisitMutWith;
 
 use crate::{
     transform::assign_add_transform::AssignOp::Assign,
-    visitor::operation_transform_visitor::OperationTransformVisitor,
+    visitor::{ident_provider::IdentKind, operation_transform_visitor::OperationTransformVisitor},
 };
 
 use super::{binary_add_transform::BinaryAddTransform, transform_status::TransformResult};
@@ -19,7 +19,7 @@ impl AssignAddTransform {
     pub fn to_dd_assign_expr(
         assign: &mut AssignExpr,
         opv: &mut OperationTransformVisitor,
-    ) -> TransformResult<AssignExpr> {
+    ) -> TransformResult<Expr> {
         let span = assign.span;
 
         match &assign.left {
@@ -29,6 +29,21 @@ impl AssignAddTransform {
             }
 
             AssignTarget::Simple(left_expr) => {
+                // `o().p += x` is rewritten into `target = plusOperator(target + x, ...)`, which
+                // mentions the target twice: whatever in it is more than an identifier is evaluated
+                // once into a temporary first
+                let mut hoisted = Vec::new();
+                let left = match left_expr {
+                    SimpleAssignTarget::Member(member) => AssignTarget::Simple(
+                        SimpleAssignTarget::Member(Self::hoist_target(member, &mut hoisted, opv, &span)),
+                    ),
+                    _ => assign.left.clone(),
+                };
+                let left_operand: Box<Expr> = match &left {
+                    AssignTarget::Simple(simple) => simple.clone().into(),
+                    _ => left_expr.clone().into(),
+                };
+
                 // `x += a + b` means `x + (a + b)`: a sum that is still a sum here (not instrumented
                 // itself) must keep its grouping, the printer does not parenthesise a right operand
                 let right = match &*assign.right {
@@ -43,7 +58,7 @@ impl AssignAddTransform {
                 let binary = Expr::Bin(BinExpr {
                     span,
                     op: BinaryOp::Add,
-                    left: left_expr.clone().into(),
+                    left: left_operand,
                     right,
                 });
 
@@ -53,17 +68,60 @@ impl AssignAddTransform {
                     opv.ident_provider,
                 );
                 if result.is_modified() {
-                    let new_assign = AssignExpr {
+                    let new_assign = Expr::Assign(AssignExpr {
                         span,
                         op: Assign,
-                        left: assign.left.clone(),
+                        left,
                         right: Box::new(result.expr.unwrap()),
-                    };
-                    TransformResult::modified(new_assign)
+                    });
+                    if hoisted.is_empty() {
+                        TransformResult::modified(new_assign)
+                    } else {
+                        hoisted.push(new_assign);
+                        TransformResult::modified(Expr::Paren(ParenExpr {
+                            span,
+                            expr: Box::new(Expr::Seq(SeqExpr {
+                                span,
+                                exprs: hoisted.into_iter().map(Box::new).collect(),
+                            })),
+                        }))
+                    }
                 } else {
                     TransformResult::not_modified()
                 }
             }
         }
+    }
+
+    fn hoist_target(
+        member: &MemberExpr,
+        hoisted: &mut Vec<Expr>,
+        opv: &mut OperationTransformVisitor,
+        span: &Span,
+    ) -> MemberExpr {
+        let mut member = member.clone();
+        if !matches!(*member.obj, Expr::Ident(_) | Expr::This(_)) {
+            if let Some(ident) = opv.ident_provider.get_temporal_ident_used_in_assignation(
+                &member.obj,
+                hoisted,
+                span,
+                IdentKind::Expr,
+            ) {
+                member.obj = Box::new(Expr::Ident(ident));
+            }
+        }
+        if let MemberProp::Computed(computed) = &mut member.prop {
+            if !matches!(*computed.expr, Expr::Ident(_) | Expr::Lit(_)) {
+                if let Some(ident) = opv.ident_provider.get_temporal_ident_used_in_assignation(
+                    &computed.expr,
+                    hoisted,
+                    span,
+                    IdentKind::Expr,
+                ) {
+                    computed.expr = Box::new(Expr::Ident(ident));
+                }
+            }
+        }
+        member
     }
 }
